@@ -71,6 +71,21 @@ def run(ctx):
     R_ofs = ctx.rule("C14.mcnk-offset-field-mapping", "each MCNK header offset field is set right before the sub-chunk the parser locates through that same field", floor=4)
     R_dual = ctx.rule("C14.binrw-no-one-sided-directive", "types deriving BinRead and BinWrite have no read-only or write-only layout directive", floor=20)
 
+    # tracked stream cursors never go stale (typestate over the MIR CFG)
+    from .. import cursor as _cursor
+    R_cur = ctx.rule("C14.tracked-cursor-never-stale", "a cursor re-read from stream_position() is refreshed after every write through the same writer before it is used as an offset or seek target", floor=1)
+    for f in adt.fn_list:
+        if f.kind == "Closure" or "::tests::" in f.path or not f.mir.get("blocks"):
+            continue
+        for cur, name, wroot in _cursor.tracking_cursors(f):
+            ctx.saw_fn(f)
+            uses = _cursor.stale_uses(f, cur, wroot)
+            if uses:
+                ctx.bad(R_cur, "%s|%s" % (f.path, name), "%s:%d" % (f.file, uses[0][1]), "`%s` is %s at line %d on a path where data was written after its last refresh" % (name, uses[0][2], uses[0][1]),
+                        "the offset recorded (or the seek target) lies before the end of the data already written: the next payload overwrites the previous one and the parsed file differs from what was built")
+            else:
+                ctx.ok(R_cur, {"fn": f.path, "cursor": name})
+
     global POS_TY
     POS_TY = lambda n: adt.ty(n.get("t")) if n is not None and n.get("t") is not None else ""
     fns = {norm(f.path): f for f in adt.fn_list if f.kind != "Closure" and f.hir}
